@@ -363,6 +363,17 @@ func (t *tx) lean(e ast.Expr, want string) (string, string, bool) {
 			a, ta, ok1 = t.lean(x.X, want)
 			b, tb, ok2 = t.lean(x.Y, ta)
 		}
+		if ok1 && ok2 && ta != tb {
+			// a length (Nat) compared with an int that may be negative (Int): the comparison is made in Int, the length lifted exactly
+			switch x.Op {
+			case token.EQL, token.NEQ, token.LSS, token.LEQ, token.GTR, token.GEQ:
+				if ta == "Nat" && tb == "Int" {
+					a, ta = "(Int.ofNat "+a+")", "Int"
+				} else if ta == "Int" && tb == "Nat" {
+					b, tb = "(Int.ofNat "+b+")", "Int"
+				}
+			}
+		}
 		if !ok1 || !ok2 || ta != tb {
 			return "", "", false
 		}
